@@ -106,3 +106,49 @@ Proof.
   cbv zeta. cbv [dbp_regular dbp_iter dbp_step dbp_core dbp_scaled dbp_inv fst snd]. mnum. cbv beta iota zeta delta [t_inv]. mnum.
   split; [split; [lra|exact I]|f_equal; field].
 Qed.
+
+(* ---------- LinAlg._logm_iss: the inverse scaling-and-squaring identity ---------- *)
+(* X_0 = A, X_{i+1} = sqrtm(X_i); the routine returns 2^k * log_pade_pf(X_k - I).  For ANY function L obeying the doubling law
+   L(X X) = 2 L(X) on a set `good` containing the iterates (the principal logarithm does, on matrices without eigenvalues on the
+   closed negative axis), L(A) = 2^k L(X_k) whenever every X_{i+1} is a square root of X_i. *)
+Section ISS.
+  Variable Mx : Type.
+  Variable mul : Mx -> Mx -> Mx.
+  Variable scal : R -> Mx -> Mx.
+  Variable L : Mx -> Mx.
+  Variable good : Mx -> Prop.
+  Hypothesis L_double : forall X, good X -> L (mul X X) = scal 2 (L X).
+  Hypothesis scal_scal : forall s t X, scal s (scal t X) = scal (s * t) X.
+  Hypothesis scal_one : forall X, scal 1 X = X.
+
+  (* the square-root chain produced by the loop: each new iterate squares to the previous one *)
+  Fixpoint sqrt_chain (A : Mx) (Xs : list Mx) : Prop :=
+    match Xs with [] => True | X :: Xs' => mul X X = A /\ good X /\ sqrt_chain X Xs' end.
+  Lemma last_cons_default (X : Mx) (Xs : list Mx) (d d' : Mx) : last (X :: Xs) d = last (X :: Xs) d'.
+  Proof. revert X. induction Xs as [|Y Xs IH]; intros X; [reflexivity|]. change (last (Y :: Xs) d = last (Y :: Xs) d'). apply IH. Qed.
+  Lemma last_shift (X : Mx) (Xs : list Mx) (A : Mx) : last (X :: Xs) A = last Xs X.
+  Proof. destruct Xs as [|Y Xs]; [reflexivity|]. change (last (Y :: Xs) A = last (Y :: Xs) X). apply last_cons_default. Qed.
+  Theorem iss_identity_abstract (Xs : list Mx) : forall A, sqrt_chain A Xs -> L A = scal (2 ^ length Xs) (L (last Xs A)).
+  Proof.
+    induction Xs as [|X Xs IH]; intros A Hc.
+    - cbn. rewrite scal_one. reflexivity.
+    - destruct Hc as (Hsq & Hg & Hc). rewrite <- Hsq, (L_double X Hg), (IH X Hc), scal_scal.
+      rewrite last_shift.
+      cbn [length pow]. reflexivity.
+  Qed.
+End ISS.
+
+(* scalar instance (1x1 matrices): ln a = 2^k ln(a^(1/2^k)) along any chain of positive square roots *)
+Theorem iss_identity_scalar (Xs : list R) (a : R) :
+  sqrt_chain R Rmult (fun x => 0 < x) a Xs -> ln a = 2 ^ length Xs * ln (last Xs a).
+Proof.
+  intros Hc. apply (iss_identity_abstract R Rmult Rmult ln (fun x => 0 < x)); try assumption.
+  - intros X HX. rewrite ln_mult by assumption. ring.
+  - intros s t X. ring.
+  - intros X. ring.
+Qed.
+Lemma iss_nonvacuous : sqrt_chain R Rmult (fun x => 0 < x) 16 [4; 2] /\ ln 16 = 2 ^ 2 * ln 2.
+Proof.
+  assert (H : sqrt_chain R Rmult (fun x => 0 < x) 16 [4; 2]) by (cbn; repeat split; lra).
+  split; [exact H|]. exact (iss_identity_scalar [4; 2] 16 H).
+Qed.
